@@ -58,16 +58,8 @@ def load_known():
 
 
 def match_known(violation, known):
-    """A finding matches a violation iff property and oracle are equal and every
-    listed detail key has the listed value: a different violation of the same
-    property is still reported."""
-    for f in known.get("findings", []):
-        if f["property"] != violation["property"] or f["oracle"] != violation["oracle"]:
-            continue
-        det = violation.get("detail") or {}
-        if all(det.get(k) == v for k, v in (f.get("detail") or {}).items()):
-            return f
-    return None
+    from . import kernel
+    return kernel.match_known(violation, known)
 
 
 # ------------------------------------------------------------------------ replay
@@ -229,6 +221,11 @@ def cmd_check(prop, tier, runs=None, wall=None):
                 new_violation = (vrec["seed"], vrec["cfg"], vrec["steps"], v, "run_index:%d" % vrec["index"],
                                  vrec.get("prefix") or None)
 
+    for k in agg["stats"]:
+        if k.startswith("known_finding:"):
+            for f in known.get("findings", []):
+                if f["id"] == k[len("known_finding:"):] and f["property"] == prop:
+                    known_hit[f["id"]] = f
     for line in foreign:
         print("note: " + line)
     for n in agg["notes"][:5]:
